@@ -26,7 +26,7 @@ import numpy as np
 import torch
 
 SLICE_POLICIES = ("pos", "offset", "stride", "gaps", "reversed", "shuffled", "constant", "global")
-ENTRIES = ("predict", "recon", "evaluate", "validation_loop")
+ENTRIES = ("predict", "recon", "evaluate", "validation_loop", "inference")
 HISTORIES = ("fresh", "after-other", "after-break", "interleaved", "second-pass")
 
 
@@ -103,8 +103,10 @@ class MarkerDataset(torch.utils.data.Dataset):
     """toy dataset: item i carries an identifiable marker image (the model output), its own scaling factor, a target, the
     volume's file name, a `slice_no` and optionally the volume's header `reconstruction_size`"""
 
-    def __init__(self, layout, data, scales, recon=None, slice_nos=None, cplx=False, text_description="toy", first_id=0):
+    def __init__(self, layout, data, scales, recon=None, slice_nos=None, cplx=False, text_description="toy", first_id=0,
+                 delay_seed=None):
         self.ndim = 2
+        self.delay_seed = delay_seed      # items take a random time to load (only matters with loader workers)
         self.text_description = text_description
         self.volume_indices = collections.OrderedDict()
         self.items = []
@@ -121,6 +123,9 @@ class MarkerDataset(torch.utils.data.Dataset):
         return len(self.items)
 
     def __getitem__(self, i):
+        if self.delay_seed is not None:
+            import time
+            time.sleep(random.Random(self.delay_seed * 1000 + i).choice([0, 0, 0.002, 0.005]))
         v, _s = self.items[i]
         m = self.data[i]
         h, w = m.shape[0], m.shape[1]
@@ -273,6 +278,34 @@ def run_entry(case, ds, rank, tmp: pathlib.Path):
         with patched_comm(rank, world):
             out = eng.predict(ds, tmp, checkpoint=None, num_workers=workers, batch_size=bs, crop=crop)
         return [(o[-1], o[0], None) for o in out], None
+    if entry == "inference":
+        # direct/inference.py: inference_on_environment -> engine.predict, then (as setup_inference_save_to_h5 does)
+        # write_output_to_h5(output, output_directory, output_key="reconstruction"); what is on disk is what counts
+        import types
+
+        import direct.inference as inf
+        import h5py
+
+        old = inf.build_dataset_from_input
+        inf.build_dataset_from_input = lambda **kw: ds
+        try:
+            with patched_comm(rank, world):
+                out = inf.inference_on_environment(types.SimpleNamespace(engine=eng), None, None, None, tmp, None,
+                                                   num_workers=workers, filenames_filter=None, batch_size=bs, crop=crop)
+        finally:
+            inf.build_dataset_from_input = old
+        out_dir = tmp / f"recons_rank{rank}"
+        if hist == "second-pass":           # an earlier run left other reconstructions under the same names
+            stale = [(torch.full((1, 1, 2, 2), -1.0), {}, o[-1]) for o in out]
+            inf.write_output_to_h5(stale, out_dir, output_key="reconstruction")
+        inf.write_output_to_h5(out, out_dir, output_key="reconstruction")
+        res = []
+        for o in out:
+            with h5py.File(out_dir / pathlib.Path(o[-1]).name, "r") as f:
+                res.append((o[-1], torch.from_numpy(f["reconstruction"][()]).unsqueeze(1), None))
+        if sorted(p.name for p in out_dir.glob("*.h5")) != sorted(pathlib.Path(o[-1]).name for o in out):
+            raise RuntimeError("files written do not correspond to the volumes predicted")
+        return res, None
     loader = build_loader(ds, world, rank, bs, workers)
     if entry == "recon":
         add_target = case.get("add_target", True)
@@ -380,7 +413,8 @@ def build_dataset(case, root: pathlib.Path, data, nums, dens):
         d.mkdir(exist_ok=True)
         return build_h5_dataset(d, case["layout"], data, scales, recon, case["cplx"], case.get("slice_filter"), "case")
     sn = make_slice_nos(case["layout"], case.get("slice_policy", "pos"), case["seed"])
-    return MarkerDataset(case["layout"], data, scales, recon=recon, slice_nos=sn, cplx=case["cplx"], text_description="case")
+    return MarkerDataset(case["layout"], data, scales, recon=recon, slice_nos=sn, cplx=case["cplx"], text_description="case",
+                         delay_seed=case["seed"] if case.get("workers") else None)
 
 
 def check_case(case):
@@ -460,12 +494,14 @@ def random_case(rng: random.Random, focus: str | None = None):
     hs = [rng.randint(3, 5) for _ in layout]
     ws = [rng.randint(3, 5) for _ in layout]
     crop = "header" if rng.random() < 0.4 else None
-    entry = rng.choice(("predict", "predict", "recon", "recon", "evaluate", "validation_loop"))
+    entry = rng.choice(("predict", "predict", "recon", "recon", "evaluate", "validation_loop", "inference"))
     world = 1 if entry == "validation_loop" else rng.randint(1, 4)
     bs = rng.choice([1, 2, 3, 4, 5, 6, 7, 8, 16])
     hist = "fresh" if rng.random() < 0.55 else rng.choice(HISTORIES[1:])
     if hist == "interleaved" and entry != "recon":
         hist = "after-break"
+    if hist == "interleaved" and entry == "inference":
+        hist = "second-pass"
     if hist == "second-pass" and entry == "validation_loop":
         hist = "after-other"
     case = {"op": "case", "ds": ds, "layout": layout, "slice_filter": flt, "slice_policy": policy, "hs": hs, "ws": ws,
